@@ -1449,12 +1449,25 @@ def errkind_guarded(body, site):
         if not pol:
             continue
         eq_t, ne_t, ops = pol
-        sl = backward_slice(body, [op_place(o) for o in ops if op_place(o)])
-        if not any(c.endswith('std::io::Error::kind') for c in sl.calls):
+        # one operand is the kind() of the error, the other the constant it is compared with: the constants are taken from the
+        # slice of that other operand only (the error itself may come through code that builds errors of other kinds, e.g. the
+        # instrumented try_io! with its ErrorKind::Other)
+        per = [(o, backward_slice(body, [op_place(o)])) for o in ops if op_place(o)]
+        subj = [o for o, sl in per if any(c.endswith('std::io::Error::kind') for c in sl.calls)]
+        if not subj:
             continue
-        ks = set(c['ev'] for c in sl.consts if isinstance(c, dict) and c.get('ev') and 'ErrorKind' in str(c.get('ty', '')))
-        ks |= set(m.group(1) for x in (y for l in sl.locals for y in body.defs().get(l, [])) if x[2] == 'assign' and x[3]['r']['k'] == 'agg'
-                  for m in [re.match(r'Adt:std::io::ErrorKind::(\w+)$', str(x[3]['r']['ak']))] if m)
+        ks = set()
+        for o in ops:
+            if isinstance(o, dict) and o.get('ev') and 'ErrorKind' in str(o.get('ty', '')):
+                ks.add(o['ev'])
+        for o, sl in per:
+            if any(o is x for x in subj):
+                continue
+            ks |= set(c['ev'] for c in sl.consts if isinstance(c, dict) and c.get('ev') and 'ErrorKind' in str(c.get('ty', '')))
+            ks |= set(m.group(1) for x in (y for l in sl.locals for y in body.defs().get(l, [])) if x[2] == 'assign' and x[3]['r']['k'] == 'agg'
+                      for m in [re.match(r'Adt:std::io::ErrorKind::(\w+)$', str(x[3]['r']['ak']))] if m)
+        if len(subj) == len(per) and not ks:
+            ks = {'?'}
         edges.append((bi, eq_t, ks or {'?'}))
     if not edges:
         return set()
